@@ -187,11 +187,10 @@ func transportConfigs(thorough bool) []tconfig {
 // single-stream histories whose returns to "no open stream" are amplified
 func cycleConfigs(thorough bool) []config {
 	var out []config
-	depth := 5
+	depth := 5 // every shard repeats this BFS to get the cycle list, so it stays shallow in both tiers
 	lens := []int64{1, 5, 16384}
 	pads := []int{-1, 255}
 	if thorough {
-		depth = 6
 		lens = []int64{0, 1, 5, 16384}
 		pads = []int{-1, 0, 1, 255}
 	}
@@ -232,6 +231,14 @@ type space struct {
 	Cycles bool
 	cfg    config  // server subject
 	tcfg   tconfig // transport subject
+}
+
+// subject names the endpoint under test (part of a finding's signature).
+func (sp space) subject() string {
+	if sp.Mode == "transport" {
+		return "transport"
+	}
+	return "server"
 }
 
 func (sp space) run(t *testing.T, seq []act, keepTrace bool) result {
@@ -280,7 +287,7 @@ func explore(t *testing.T, rep *ev.Report, cfg space, deadline time.Time, founds
 	}
 	noteViol := func(r result, seq []act) {
 		for _, v := range r.viol {
-			k := cfg.Mode + ":" + sigOf(v)
+			k := cfg.subject() + ":" + sigOf(v)
 			if _, ok := founds[k]; !ok {
 				founds[k] = found{v: v, sp: cfg, seq: append([]act(nil), seq...)}
 			}
@@ -293,6 +300,7 @@ func explore(t *testing.T, rep *ev.Report, cfg space, deadline time.Time, founds
 	// action classes after which the subject was proven dead-locked once in this configuration: every further
 	// transition of the class is skipped (each costs seconds of real time) and counted; the search is then not exhaustive.
 	poisoned := map[string]bool{}
+	sampled := 0
 	class := func(a act) string { return fmt.Sprintf("%s/%v/%d", a.K, a.S >= 0, a.N) }
 	for d := 0; d < cfg.Depth && len(frontier) > 0; d++ {
 		var next []node
@@ -322,6 +330,10 @@ func explore(t *testing.T, rep *ev.Report, cfg space, deadline time.Time, founds
 					}
 				}
 				rep.Note("distinct_nontrivial", featureOf(cfg, seq, r))
+				if len(seq) == cfg.Depth && sampled < 2 {
+					sampled++
+					rep.Sample(map[string]any{"config": cfg.Name, "actions": seqString(seq), "state_key_hash": mc.Hash64(r.key), "terminal": r.terminal})
+				}
 				if r.hung {
 					poisoned[class(a)] = true
 				}
@@ -505,7 +517,7 @@ func ampOne(t *testing.T, rep *ev.Report, cfg space, cyc []act, founds map[strin
 		return
 	}
 	for _, v := range r.viol {
-		k := cfg.Mode + ":amp:" + sigOf(v)
+		k := cfg.subject() + ":amp:" + sigOf(v)
 		if _, ok := founds[k]; !ok {
 			founds[k] = found{v: v, sp: cfg, seq: append([]act(nil), cyc...), amp: r.iters}
 		}
@@ -539,9 +551,20 @@ func TestCheck(t *testing.T) {
 	}
 	deadline := time.Now().Add(budget)
 	rep.Info["rule"] = "state = (wire ledger: every window in both directions, per-stream queued/held bytes and stream states; handler control states; the server's own outflow/inflow variables and scheduler ring); transition = one client frame or one handler step executed on the real serverConn, followed by quiescence; every quiescent state is judged by the ledger; distinct_nontrivial = distinct (mode, multiset of action kinds) of executed transitions"
+	rep.Info["bounds"] = map[string]any{
+		"tier":             ev.Tier(),
+		"server_send":      "client IWS {0,1,5} x connection send window left {65535,0,1,5} (+ one large-body configuration: 40000-byte writes, MAX_FRAME_SIZE change); actions: open (<=2 streams quick, <=3 thorough), handler Write+Flush n, Write n + return, return, WINDOW_UPDATE(stream|conn, k incl. 2^31-1), SETTINGS(IWS=v incl. 0 and 2^31-1), RST_STREAM; all histories to depth 5 (quick) / 6 (thorough) with pruning on the state key",
+		"server_receive":   "MaxUploadBufferPerStream {1,10,20000,70000} x connection receive window left {65535,5,0}; actions: open POST, DATA(len, pad) incl. beyond the windows and on closed streams, END_STREAM, RST_STREAM, handler Read n, Body.Close, return; depth 5 / 6",
+		"server_duplex":    "handlers with a reader goroutine: response DATA blocked by the client's send window while the request body is read; depth 5 / 6",
+		"cycles":           "every transition of the single-stream receive graph (depth 5) that returns to 'no open stream' is repeated on ONE connection until the connection-level state repeats (lasso), an invariant breaks, or 4400 repetitions",
+		"transport":        "real http2.Transport ClientConn against a scripted raw-frame server: server IWS {0,1,5} x connection window left {65535,0,5} (+ 70000-byte bodies), response DATA against receive buffers {10,20000,70000}; depth 4 / 5",
+		"design_deviation": "DESIGN.md asks for send-side depth 7 (quick 5) and receive buffer set {1,10,20000}; depth 6 is used in the thorough tier (depth 7 is ~10x the budget), 70000 was added so that the connection window can bind below the stream window, cycle amplification uses lasso detection instead of a fixed x1000",
+	}
 	rep.Assume("the server is observed at quiescent points only (testing/synctest: every goroutine of the connection is durably blocked); the order in which the serve loop consumes a handler message and a client frame that are pending at the same instant is not enumerated here (one environment step at a time)",
 		"state keys include the server's own flow-control variables read through an export shim; they are used for pruning and lasso detection only, never as the oracle",
-		"a peer that has itself broken a flow-control rule ends the history: only the required FLOW_CONTROL_ERROR answer and non-delivery of the excess are checked after that")
+		"a peer that has itself broken a flow-control rule ends the history: only the required FLOW_CONTROL_ERROR answer and non-delivery of the excess are checked after that",
+		"cycle amplification: when the connection-level state (ledger windows, un-returned credit, the subject's conn inflow avail/unsent and outflow) repeats after a return to 'no open stream', the infinite repetition of the cycle is periodic; stream ids, HPACK table contents and counters that do not feed flow control are not part of that state",
+		"a hung execution is a verdict only when a goroutine dump shows every goroutine of the bubble blocked and one of them waiting for a mutex (the bubble's clock cannot advance then); elapsed real time only decides when to look")
 
 	if rp := os.Getenv("VERIF_REPLAY"); rp != "" {
 		replayFile(t, rep, rp)
@@ -667,7 +690,7 @@ func report(t *testing.T, rep *ev.Report, founds map[string]found) {
 			rep.HarnessError("violation did not reproduce 5/5 (%d): %s %v: %v", okN, f.sp.Name, seqString(f.seq), f.v)
 			continue
 		}
-		sig := map[string]any{"kind": f.v.Kind, "side": f.sp.Mode}
+		sig := map[string]any{"kind": f.v.Kind, "side": f.sp.subject()}
 		what := f.v.String()
 		if f.v.Cause != "" {
 			sig["cause"] = f.v.Cause
